@@ -395,6 +395,10 @@ func c02(c *fw.Ctx) {
 					for i := range body {
 						body[i] = rune(native) + rune(r.Rng.Intn(26))
 					}
+					tailLen := tailLen
+					if tailLen > 5 && k > 11 {
+						tailLen = 5 // the longest tails for bodies of 0..11 characters (every k mod 3, the first symbol boundaries)
+					}
 					tail := make([]rune, 0, tailLen)
 					tail = append(tail, alpha[first/8])
 					if !c02One(r, dmOpts{text: string(body) + string(tail)}, class) {
@@ -425,7 +429,7 @@ func c02(c *fw.Ctx) {
 			}
 		}
 	}
-	c.Exhaustive(fmt.Sprintf("C40 and Text runs of 0..26 native characters followed by every tail of up to %d characters over {1, 2, 3, 4-value characters}", tailLen))
+	c.Exhaustive(fmt.Sprintf("C40 and Text runs of 0..26 native characters followed by every tail of up to %d characters (thorough: 6 after 0..11 native characters, 5 after 12..26) over {1, 2, 3, 4-value characters}", tailLen))
 	// C40 / Text / X12 / EDIFACT end-of-data families: k native characters + tail
 	tails := []string{"", "1", "12", "a", "A", "\xe9", "A\xe9", "\xe9\xe9", "*", " ", "!", "\x05"}
 	for fam, alpha := range []string{dmClasses[1][:27], dmClasses[2][:27], "*>\rABC019 ", "!\"#$%&'()+,-./:;<=?@[\\]^ AB12"} {
